@@ -6,6 +6,7 @@
     and necessarily so: [C02_unbounded_refuted] shows the statement without it is
     false (insert/remove 2^64 times and the identifier (0,0) is issued again). *)
 From Brood Require Import Base World Multi Spec BaseFacts Inv StepInv CloneEq Fresh.
+From Brood Require Import Facts Resolve ResolveFacts.
 
 (** Every identifier returned by insert/extend differs from every identifier
     returned before it in that world's lifetime (and identifiers of one batch
@@ -113,3 +114,20 @@ Example C02_example :
   | None => False
   end.
 Proof. vm_compute. auto. Qed.
+
+
+(** every place that resolves an identifier — World::contains, World::entry, World::remove and the query-time
+    Entries::entry of systems — goes through the allocator's accessors, which compare the generation (read off the
+    source): an identifier that is not live resolves to nothing, also after its slot has been handed on. *)
+Theorem C02_dead_resolves_nowhere : forall w e, is_active w e = false -> resolve_src w e = None.
+Proof. exact dead_resolves_nowhere. Qed.
+Check (C02_dead_resolves_nowhere : forall w e, is_active w e = false -> resolve_src w e = None).
+Print Assumptions C02_dead_resolves_nowhere.
+
+Theorem C02_resolution_is_get_loc : forall w e, resolve_src w e = get_loc w e.
+Proof. exact resolve_src_get_loc. Qed.
+
+Theorem C02_generation_comparison_needed :
+  let w := mkWorld 1 [mkArch [true] [((0, 1%N), [7%N])]] [] [mkSlot 1%N (Some ([true], 0))] [] 1 [] in
+  is_active w (0, 0%N) = false /\ resolve_gen false w (0, 0%N) = Some ([true], 0) /\ resolve_gen true w (0, 0%N) = None.
+Proof. exact stale_resolves_without_generation. Qed.
